@@ -26,11 +26,12 @@ Evs == R.events
 Calls == {i \in 1..Len(Evs) : Evs[i].ev = "call"}
 RetOf(i) == LET js == {j \in (i+1)..Len(Evs) : Evs[j].ev = "ret" /\ Evs[j].a = Evs[i].a} IN
             IF js = {} THEN Len(Evs) + 1 ELSE CHOOSE j \in js : \A k \in js : j <= k
-Dom(i) == IF Evs[i].op = "mutex" THEN "mutex" ELSE IF Evs[i].mode \in {"cf", "wf"} THEN "fifo"
+\* "dir": the path is a directory (read locks work on it; a Mutex or an open for writing that claims it must exclude them)
+Dom(i) == IF Evs[i].mode \in {"rdir", "wdir", "dir"} THEN "dir" ELSE IF Evs[i].op = "mutex" THEN "mutex" ELSE IF Evs[i].mode \in {"cf", "wf"} THEN "fifo"
           ELSE IF Evs[i].mode \in {"excl", "wnew", "rnew"} THEN "new" ELSE "data"
 \* every open for writing, whatever other flags it carries (O_APPEND, O_CREATE|O_EXCL on a file that did not exist, ...)
 Writer(i) == Evs[i].op \in {"write", "transform", "mutex"}
-             \/ (Evs[i].op = "hold" /\ Evs[i].mode \in {"w", "create", "wx", "cf", "wf", "excl", "wnew", "wa"})
+             \/ (Evs[i].op = "hold" /\ Evs[i].mode \in {"w", "create", "wx", "cf", "wf", "excl", "wnew", "wa", "wdir"})
 BodyKinds == {"read", "write", "writeat", "truncate", "readat"}
 Body(i) == {k \in i..(RetOf(i) - 1) : /\ k <= Len(Evs) /\ Evs[k].a = Evs[i].a
                                      /\ \/ Evs[k].ev \in {"acq", "rel"}
